@@ -225,15 +225,14 @@ def r14_4(prog, rep):
         if p.exit[0] != "return":
             continue
         r = p.exit[1]
-        suppressed = [e for e in p.events if e[0] == "suppressed"]
+        suppressed = P.abandoned(p)
         if r[0] == "call" and (T.refname(r[1]) or "").endswith(".loads") and r[2] == (val,) and not suppressed:
             json_first = True
         if T.is_call_to(r, "ast.literal_eval") and len(suppressed) == 1:
             lit_second = r[2] == (dec,)
         if r == dec and len(suppressed) == 2:
             final = True
-            sup1 = [T.refname(a) for a in suppressed[0][1][2]]
-            sup2 = [T.refname(a) for a in suppressed[1][1][2]]
+            sup1, sup2 = suppressed[0], suppressed[1]
     rep.check(json_first, "R14.4", f.qualname, f.loc, "JSON is tried first on the input", "the JSON decoder is not the first attempt", detail="json-first")
     rep.check(lit_second, "R14.4", f.qualname, f.loc, "literal_eval is tried second, on the decoded text", "literal_eval is not the second attempt or does not receive decode(val)", detail="literal-second")
     rep.check(final, "R14.4", f.qualname, f.loc, "otherwise the decoded text is returned", "the fall-through does not return decode(val)", detail="fallback")
